@@ -201,3 +201,7 @@ def _liou(system):
     # computed from the stored operators, bypassing the per-object memo
     from oqupy.system import _liouvillian
     return _liouvillian(system._hamiltonian, system._gammas, system._lindblad_operators)
+
+
+# thorough tier (bounded native sweeps): (function, inputs, obligation of the open finding it reproduces or None)
+THOROUGH = [('history', {}, None), ('arrays', {}, None)]
